@@ -61,6 +61,13 @@ func vC19Configs(htp string) []vC19Cfg {
 			e.rebuildChains()
 		}}})
 	}
+	// bearer tokens of a second issuer, accepted through the generic token-to-session loader (sessions with an
+	// expiry but no creation time)
+	out = append(out, vC19Cfg{"extra-jwt-issuer+claims", vEnvCfg{oidc: true, extraJWT: true, mod: func(o *options.Options) {
+		o.HtpasswdFile = htp
+		o.Cookie.Refresh = time.Hour
+		allClaims(o)
+	}}})
 	out = append(out, vC19Cfg{"api-routes+json+odd-cookie-name", vEnvCfg{oidc: true, mod: func(o *options.Options) {
 		o.APIRoutes = []string{"^/api/"}
 		o.ForceJSONErrors = true
@@ -101,6 +108,15 @@ func driveC19(t *testing.T, out *vEmitter) {
 		bearer := vJWT(vKeyRSA, "RS256", vClaims("bearer@example.com", nil))
 		bearerNoEmail := vJWT(vKeyRSA, "RS256", vClaims("x", map[string]interface{}{"email": nil}))
 		basic := base64.StdEncoding.EncodeToString([]byte("htuser:htpass"))
+		bearer2 := vJWT(vKeyRSA, "RS256", vClaims2("bearer2@example.com", map[string]interface{}{"groups": []interface{}{"g1", "g2"}, "preferred_username": "b2"}))
+		bearer2Typed := []string{
+			vJWT(vKeyRSA, "RS256", vClaims2("x@example.com", map[string]interface{}{"email": 12345})),
+			vJWT(vKeyRSA, "RS256", vClaims2("x@example.com", map[string]interface{}{"groups": map[string]interface{}{"a": "b"}})),
+			vJWT(vKeyRSA, "RS256", vClaims2("x@example.com", map[string]interface{}{"preferred_username": []interface{}{1, 2}})),
+			vJWT(vKeyRSA, "RS256", vClaims2("x@example.com", map[string]interface{}{"email": nil, "email_verified": "yes"})),
+			vJWT(vKeyRSA, "RS256", vClaims2("x@example.com", map[string]interface{}{"exp": nil})),
+			vJWT(vKeyRSA, "RS256", vClaims2("x@example.com", map[string]interface{}{"sub": nil, "email": nil})),
+		}
 
 		targets := []string{"/", "/app/x?y=1", "/public/a", "/private/a", "/api/v1", "/oauth2/auth", "/oauth2/userinfo", "/oauth2/sign_in", "/oauth2/sign_out",
 			"/oauth2/start", "/oauth2/callback", "/oauth2/static/css/bulma.min.css", "/oauth2/static/../x", "/robots.txt", "/ping", "/ready", "/oauth2", "/oauth2/", "//", "/%2e%2e/", "/a%00b", "/oauth2/auth/"}
@@ -129,6 +145,8 @@ func driveC19(t *testing.T, out *vEmitter) {
 		authVariants := []string{"", "Bearer " + bearer, "Bearer " + bearerNoEmail, "Bearer " + vFlip(bearer, 30), "Bearer a.b.c", "Bearer eyJh.eyJh.x", "Bearer ", "Bearer", "bearer " + bearer,
 			"Basic " + basic, "Basic " + base64.StdEncoding.EncodeToString([]byte("htuser")), "Basic " + base64.StdEncoding.EncodeToString([]byte(":")), "Basic !!!", "Basic", "Basic  x",
 			"Basic " + base64.StdEncoding.EncodeToString([]byte(bearer+":x-oauth-basic")), "Basic " + base64.StdEncoding.EncodeToString([]byte("x-oauth-basic:"+bearer)),
+			"Bearer " + bearer2, "Bearer " + vFlip(bearer2, 40), "Basic " + base64.StdEncoding.EncodeToString([]byte(bearer2+":x-oauth-basic")),
+			"Bearer " + bearer2Typed[0], "Bearer " + bearer2Typed[1], "Bearer " + bearer2Typed[2], "Bearer " + bearer2Typed[3], "Bearer " + bearer2Typed[4], "Bearer " + bearer2Typed[5],
 			"Digest x", "Bearer " + strings.Repeat("A", 9000), "Bearer ey" + strings.Repeat("a", 10) + ".ey" + strings.Repeat("b", 10) + ".c", "Negotiate a b c"}
 		fwdVariants := [][][2]string{nil, {{"X-Forwarded-Host", "pub.example.com"}, {"X-Forwarded-Proto", "https"}, {"X-Forwarded-Uri", "/fwd?a=b"}},
 			{{"X-Forwarded-Uri", "/%zz"}, {"X-Forwarded-Host", "a b"}, {"X-Forwarded-Proto", "javascript"}}, {{"X-Forwarded-Uri", "no-slash"}}, {{"X-Forwarded-Uri", "/a#%"}},
@@ -179,6 +197,40 @@ func driveC19(t *testing.T, out *vEmitter) {
 				out.Violation("panic/no-response", "request handling produced no response", map[string]interface{}{"config": c.name, "target": target})
 			}
 		}
+		if c.env.extraJWT {
+			// the second issuer's token must really be a session source here
+			rq, _ := vRawRequest(vBuildRaw("GET", "/oauth2/auth", hosts[0], [][2]string{{"Authorization", "Bearer " + bearer2}}, ""))
+			rq.RemoteAddr = remotes[0]
+			if rs := e.serve(rq); rs.Panic == nil && rs.Status != 202 {
+				t.Fatalf("extra-jwt-issuer bearer token not accepted: status %d", rs.Status)
+			} else if rs.Panic == nil {
+				out.Stat("extra_issuer_bearer_accepted", 1)
+			}
+		}
+		// the callback of a genuine login (own state and CSRF cookie) while the provider's token endpoint misbehaves
+		for _, mode := range []string{"rejects-code", "garbage", "empty-json", "no-id-token", "transport-error", "ok"} {
+			m := mode
+			e.idp.onToken = func(url.Values) (int, string, string, error) {
+				switch m {
+				case "rejects-code":
+					return 400, "application/json", `{"error":"invalid_grant"}`, nil
+				case "garbage":
+					return 200, "application/json", `{"access_token": 5, "id_token": [`, nil
+				case "empty-json":
+					return 200, "application/json", `{}`, nil
+				case "no-id-token":
+					return 200, "application/json", vTokenJSON("", "at", "rt", 3600), nil
+				case "transport-error":
+					return 0, "", "", fmt.Errorf("connection reset by peer")
+				}
+				return 200, "application/json", vTokenJSON(vJWT(vKeyRSA, "RS256", vClaims("user@example.com", nil)), "at", "rt", 3600), nil
+			}
+			for _, code := range []string{"c", "", strings.Repeat("x", 3000), "%00"} {
+				tryOne("GET", "/oauth2/callback?code="+url.QueryEscape(code)+"&state="+url.QueryEscape(l.State), hosts[0], remotes[0], [][2]string{{"Cookie", csrfCookies}}, "")
+				tryOne("POST", "/oauth2/callback?code="+url.QueryEscape(code)+"&state="+url.QueryEscape(l.State), hosts[0], remotes[0], [][2]string{{"Cookie", csrfCookies + "; " + sessionCookies}}, "")
+			}
+		}
+		e.idp.stdToken("user@example.com", "", nil)
 		// systematic one-dimension-at-a-time sweeps
 		for _, tg := range targets {
 			for _, q := range queryParams {
